@@ -226,3 +226,63 @@ def flw12_widen_before_subtract(ctx):
               bool(subs) and all(t in ('i128', '(i128, bool)') for t in tys),
               'all differences are computed in i128 (types: %s)' % sorted(t or '?' for t in tys),
               where(subs[0]) if subs else None)
+
+
+# ------------------------------------------------------------------------------------ FLT-1
+_CMP = re.compile(r'^(Eq|Ne|Lt|Le|Gt|Ge)\((.*), (.*)\)$')
+
+
+def float_comparisons(body):
+    """Statements of `body` that compare two floating point values (MIR `Eq/Ne/Lt/..` whose operand
+    has type f64/f32, and calls of PartialEq/PartialOrd methods on floats)."""
+    body.parse()
+    out = []
+    for bid, blk in body.blocks.items():
+        if blk.cleanup:
+            continue
+        for s in blk.stmts:
+            if s.kind != 'assign':
+                continue
+            m = _CMP.match(s.rhs.strip())
+            if not m:
+                continue
+            for op in (m.group(2), m.group(3)):
+                op = op.strip()
+                if re.match(r'^const .*_?f(64|32)$', op):
+                    out.append(s)
+                    break
+                l = base_local(op)
+                if l is not None and re.match(r'^(\(\*)?_\d+\)?$', op.split(' ', 1)[-1]) and \
+                        (body.local_type(l) or '').strip() in ('f64', 'f32', '&f64', '&f32'):
+                    out.append(s)
+                    break
+        t = blk.term
+        if t is not None and t.kind == 'call' and re.search(
+                r'<f(64|32) as (std|core)::cmp::Partial(Eq|Ord)(<f(64|32)>)?>::(eq|ne|lt|le|gt|ge|partial_cmp)$',
+                (t.func or '').split('(')[0]):
+            out.append(t)
+    return out
+
+
+def flt1_lossless_float_codec_compares_bits(ctx):
+    ctx.rule('FLT-1', 'the lossless float stream codec never branches on a floating point comparison: '
+                      '`==` on f64 identifies 0.0 with -0.0 and separates equal NaN patterns, so a '
+                      '"same as previous value" shortcut must compare bit patterns', floor=3)
+    P = ctx.P
+    scope = [b for b in P.fn_bodies() if b.crate != 'locustdb' and '::xor_float::' in ('::' + b.name)
+             and b.kind == 'fn']
+    names = sorted({b.name for b in scope})
+    ctx.require(len([n for n in names if n.endswith(('::encode', '::decode', '::verbose_encode'))]) >= 3,
+                'FLT-1: xor_float encode/decode bodies not found (%s)' % names[:8])
+    for b in sorted(scope, key=lambda x: x.name):
+        fc = float_comparisons(b)
+        if fc:
+            for i, s in enumerate(fc):
+                ctx.violation('FLT-1', '%s|float-comparison%s' % (b.name, '' if i == 0 else '#%d' % (i + 1)),
+                              'floating point comparison `%s` in the lossless float codec: values with '
+                              'equal numeric value but different bit patterns (0.0 / -0.0) are '
+                              'conflated, NaN patterns are never equal' % getattr(s, 'code', s), where(s))
+        elif b.name.endswith(('::encode', '::decode', '::verbose_encode')):
+            ctx.ok('FLT-1', '%s|bit-comparisons-only' % b.name,
+                   'no f64/f32 comparison in the body; values are related through to_bits()/XOR',
+                   where(b.blocks[0].term))
